@@ -7,6 +7,7 @@ import (
 	"net/http"
 	"os"
 	"path/filepath"
+	"reflect"
 	"runtime"
 	"strings"
 	"sync"
@@ -98,12 +99,29 @@ func runC10(em *vEmitter, r *vRng) {
 		if err != nil {
 			panic(err)
 		}
-		coq := fmt.Sprintf("Caps [%d; %d; %d; %d; %d; %d; %d; %d; %d] %d %d %s",
-			cap(st.initChan), cap(st.checkChan), cap(st.addChan), cap(st.removeChan), cap(st.updateChan), cap(st.setAdminChan),
-			cap(st.listChan), cap(st.listFullChan), cap(st.authenticateChan), cap(st.hooks.Notify), cap(st.hooks.NewStore),
-			cB(st.upgradeChan == st.updateChan))
+		names := []string{"initChan", "checkChan", "addChan", "removeChan", "updateChan", "setAdminChan", "listChan", "listFullChan", "authenticateChan"}
+		var caps []string
+		missing := false
+		for _, n := range names {
+			c := vFieldCap(st, n)
+			missing = missing || c < 0
+			caps = append(caps, fmt.Sprint(c))
+		}
+		notify, newstore := vFieldCap(st, "hooks", "Notify"), vFieldCap(st, "hooks", "NewStore")
+		missing = missing || notify < 0 || newstore < 0
+		alias := false
+		if rv := reflect.ValueOf(st).Elem(); rv.FieldByName("upgradeChan").IsValid() && rv.FieldByName("updateChan").IsValid() &&
+			rv.FieldByName("upgradeChan").Kind() == reflect.Chan && rv.FieldByName("updateChan").Kind() == reflect.Chan {
+			alias = rv.FieldByName("upgradeChan").Pointer() == rv.FieldByName("updateChan").Pointer()
+		} else {
+			missing = true
+		}
+		coq := fmt.Sprintf("Caps [%s] %d %d %s", strings.Join(caps, "; "), notify, newstore, cB(alias))
+		if missing {
+			coq = "" // a queue of that name no longer exists: the extracted facts report it; nothing to compare here
+		}
 		em.emit(vCase{Prop: "C10", Kind: "caps", Class: "capacities", Nontrivial: true, Coq: coq,
-			Human: map[string]interface{}{"update": cap(st.updateChan), "notify": cap(st.hooks.Notify)}})
+			Human: map[string]interface{}{"request_queues": caps, "notify": notify, "newstore": newstore, "a_queue_is_missing": missing}})
 		ms.cleanup()
 	}
 	// reloads: the agent keeps answering after any number of SIGHUPs (successful and failed ones), with
